@@ -232,6 +232,45 @@ class Ctx:
         self.pc.append(conds[k])
         return k
 
+    def choose_trunc(self, x):
+        """fork over k = trunc(x) for a real term x"""
+        from .solve import solve
+
+        def cond(k):
+            if k > 0:
+                return z3.And(x >= k, x < k + 1)
+            if k < 0:
+                return z3.And(x <= k, x > k - 1)
+            return z3.And(x > -1, x < 1)
+        i = len(self.decisions)
+        if i < len(self.preset):
+            d = self.preset[i]
+            assert d[0] == "t"
+            k = d[1]
+        else:
+            found = []
+            while True:
+                t = time.time()
+                self.queries += 1
+                st, model = solve(self.hyps() + [z3.Not(cond(k)) for k in found], timeout_ms=self.branch_timeout_ms * 4, use_axioms=False)
+                self.solver_s += time.time() - t
+                if st == "unknown":
+                    raise PathAbort("unsupported", "int() fork: solver unknown")
+                if st == "unsat":
+                    break
+                found.append(int(model.value(x)))
+                if len(found) > self.max_int_fork:
+                    raise PathAbort("bound", f"more than {self.max_int_fork} integer alternatives")
+            if not found:
+                raise PathAbort("infeasible")
+            found.sort()
+            k = found[0]
+            for other in reversed(found[1:]):
+                self.pending.append(self.decisions + [("t", other)])
+        self.decisions.append(("t", k))
+        self.pc.append(cond(k))
+        return k
+
     def choose_int(self, expr, lo=None, hi=None):
         """fork over the feasible integer values of z3 term `expr` (Int or Real sort, the
         caller guarantees it is integer valued); returns a concrete python int."""
@@ -740,14 +779,15 @@ class SymReal:
         raise Realification("float() of a symbolic value")
 
     def __int__(s):
-        """python int(): truncation toward zero; forks over feasible values"""
+        """python int(): truncation toward zero; forks over the feasible values (pure real
+        encoding: alternative k is the condition trunc(x) == k)"""
         c = Ctx.cur
         if s.ie is not None:
             return c.choose_int(s.ie)
-        t = c.fresh("trunc", "I")
-        tr = z3.ToReal(t)
-        c.side.append(z3.If(s.e >= 0, z3.And(tr <= s.e, s.e < tr + 1), z3.And(tr >= s.e, s.e > tr - 1)))
-        return c.choose_int(t)
+        if z3.is_rational_value(s.e):
+            f = Fraction(s.e.numerator_as_long(), s.e.denominator_as_long())
+            return int(f)
+        return c.choose_trunc(s.e)
 
     def __index__(s):
         c = Ctx.cur
